@@ -359,7 +359,219 @@ def gen_ctors(mods, tables):
 
 
 def gen_facade(mods):
-    return "(* placeholder *)\n", {"methods": []}
+    """every public method of class SCSI as the list of abstract actions it performs, in program order;
+    the attach decision table of __init_opcode; the documented keyword arguments of each method"""
+    import re
+    from translate import HEADER, coq_str, const_int, src_of, imports_of
+    mod = next(m for m in mods if m.stem == "scsi" and m.rel.endswith("pyscsi/scsi.py"))
+    cls = next((n for n in mod.tree.body if isinstance(n, ast.ClassDef) and n.name == "SCSI"), None)
+    unknown, lines, methods = [], [HEADER.format(src=mod.rel, extra=" Model.Ctor Model.Facade")], []
+    # class name -> ctor key "stem.Class" via the imports of scsi.py (incl. `import *`)
+    cmap = {}
+    for imp_mod, imp_name, as_name in imports_of(mod):
+        stem = imp_mod.split(".")[-1]
+        if imp_name == "*":
+            m2 = next((m for m in mods if m.stem == stem), None)
+            if m2:
+                for n in m2.tree.body:
+                    if isinstance(n, ast.ClassDef):
+                        cmap[n.name] = "%s.%s" % (stem, n.name)
+        else:
+            cmap[as_name] = "%s.%s" % (stem, imp_name)
+    skip = {"execute"}
+    for fn in cls.body if cls else []:
+        if not isinstance(fn, ast.FunctionDef) or fn.name.startswith("_") or fn.name in skip or fn.decorator_list:
+            continue
+        params = [a.arg for a in fn.args.args[1:]]
+        nd = len(fn.args.defaults)
+        defaults = [None] * (len(params) - nd) + list(fn.args.defaults)
+        kwname = fn.args.kwarg.arg if fn.args.kwarg else None
+        opvar = cmdvar = None
+        acts = []
+
+        def farg(node):
+            if isinstance(node, ast.Name):
+                if node.id == opvar:
+                    return "FOpcode"
+                if node.id in params:
+                    return "FArg %s" % coq_str(node.id)
+            if dotted(node) == "self.blocksize":
+                return "FBlocksize"
+            return None
+
+        def construct(call, guard_sa=None):
+            ck = cmap.get(dotted(call.func) or "")
+            if ck is None:
+                return None
+            pos = [farg(a) for a in call.args]
+            kws, star = [], False
+            for k in call.keywords:
+                if k.arg is None:
+                    if isinstance(k.value, ast.Name) and k.value.id == kwname:
+                        star = True
+                        continue
+                    return None
+                kws.append((k.arg, farg(k.value)))
+            if None in pos or any(v is None for _, v in kws):
+                return None
+            return "(%s, [%s], [%s], %s)" % (coq_str(ck), "; ".join(pos),
+                                             "; ".join("(%s, %s)" % (coq_str(k), v) for k, v in kws), "true" if star else "false")
+
+        body = [st for st in fn.body if not (isinstance(st, ast.Expr) and isinstance(st.value, ast.Constant))]
+        for st in body:
+            ok = False
+            if isinstance(st, ast.Assign) and len(st.targets) == 1 and isinstance(st.targets[0], ast.Name):
+                tgt, v = st.targets[0].id, st.value
+                d = dotted(v)
+                if d and d.startswith("self.device.opcodes.") and d.count(".") == 3:
+                    opvar = tgt
+                    acts.append("ALookup %s" % coq_str(d.split(".")[3]))
+                    ok = True
+                elif isinstance(v, ast.Call) and dotted(v.func) == "next" and len(v.args) == 1 and isinstance(v.args[0], ast.Call) \
+                        and dotted(v.args[0].func) == "get_opcode" and len(v.args[0].args) == 2 \
+                        and dotted(v.args[0].args[0]) == "self.device.opcodes" and isinstance(v.args[0].args[1], ast.Constant):
+                    opvar = tgt
+                    acts.append("ALookupSuffix %s" % coq_str(v.args[0].args[1].value))
+                    ok = True
+                elif isinstance(v, ast.Call):
+                    c = construct(v)
+                    if c is not None:
+                        cmdvar = tgt
+                        acts.append("AConstruct %s" % c)
+                        ok = True
+            elif isinstance(st, ast.If):
+                # if service_action == opcode.serviceaction.X: cmd = Cls(...) elif ... else: raise ValueError(...)
+                node, branches, good = st, [], True
+                while True:
+                    t = node.test
+                    sa = None
+                    if isinstance(t, ast.Compare) and len(t.ops) == 1 and isinstance(t.ops[0], ast.Eq) and isinstance(t.left, ast.Name) \
+                            and t.left.id in params:
+                        d = dotted(t.comparators[0]) or ""
+                        if opvar and d.startswith(opvar + ".serviceaction."):
+                            sa = (t.left.id, d.split(".")[2])
+                    c = None
+                    if len(node.body) == 1 and isinstance(node.body[0], ast.Assign) and isinstance(node.body[0].targets[0], ast.Name) \
+                            and isinstance(node.body[0].value, ast.Call):
+                        c = construct(node.body[0].value)
+                        cmdvar = node.body[0].targets[0].id
+                    if sa is None or c is None:
+                        good = False
+                        break
+                    branches.append("(%s, %s, %s)" % (coq_str(sa[0]), coq_str(sa[1]), c))
+                    if len(node.orelse) == 1 and isinstance(node.orelse[0], ast.If):
+                        node = node.orelse[0]
+                        continue
+                    if not (len(node.orelse) == 1 and isinstance(node.orelse[0], ast.Raise) and node.orelse[0].exc is not None
+                            and isinstance(node.orelse[0].exc, ast.Call) and dotted(node.orelse[0].exc.func) == "ValueError"):
+                        good = False
+                    break
+                if good:
+                    acts.append("AConstructBySA [%s]" % "; ".join(branches))
+                    ok = True
+            elif isinstance(st, ast.Expr) and isinstance(st.value, ast.Call):
+                c = st.value
+                d = dotted(c.func)
+                if d == "self.execute" and len(c.args) == 1 and isinstance(c.args[0], ast.Name) and c.args[0].id == cmdvar:
+                    raw = "false"
+                    good = True
+                    for k in c.keywords:
+                        if k.arg == "en_raw_sense" and isinstance(k.value, ast.Constant) and isinstance(k.value.value, bool):
+                            raw = "true" if k.value.value else "false"
+                        else:
+                            good = False
+                    if good:
+                        acts.append("AExecute %s" % raw)
+                        ok = True
+                elif cmdvar and d == cmdvar + ".unmarshall" and not c.args:
+                    kws, star, good = [], False, True
+                    for k in c.keywords:
+                        if k.arg is None:
+                            if isinstance(k.value, ast.Name) and k.value.id == kwname:
+                                star = True
+                            else:
+                                good = False
+                        else:
+                            v = farg(k.value)
+                            if v is None:
+                                good = False
+                            kws.append((k.arg, v))
+                    if good:
+                        acts.append("AUnmarshall [%s] %s" % ("; ".join("(%s, %s)" % (coq_str(k), v) for k, v in kws),
+                                                             "true" if star else "false"))
+                        ok = True
+            elif isinstance(st, ast.Return) and isinstance(st.value, ast.Name) and st.value.id == cmdvar:
+                acts.append("AReturn")
+                ok = True
+            if not ok:
+                unknown.append("SCSI.%s: %s" % (fn.name, src_of(st, mod.text)))
+                acts.append("AUnknownAction %s" % coq_str(src_of(st, mod.text)[:120]))
+        doc = ast.get_docstring(fn) or ""
+        doc_kwargs = []
+        m = re.search(r":param kwargs:(.*?)(?=\n\s*:(?:param|return)|\Z)", doc, re.S)
+        if m:
+            doc_kwargs = re.findall(r"^\s*(\w+)\s*=", m.group(1), re.M)
+
+        def dflt(n):
+            if n is None:
+                return "None"
+            v = const_int(n)
+            if v is not None and v >= 0:
+                return "Some (CInt %d)" % v
+            if isinstance(n, ast.Call) and dotted(n.func) == "bytearray":
+                return "Some (CBytes [])"
+            return "Some (COpaque %s)" % coq_str(src_of(n, mod.text)[:40])
+        methods.append(dict(name=fn.name, params=params, ndefaults=nd, kwargs=bool(kwname), acts=acts, doc_kwargs=doc_kwargs))
+        lines.append("Definition F_%s : fmethod := mkF %s [%s] %s\n  [%s].\n" % (
+            fn.name, coq_str(fn.name), "; ".join("(%s, %s)" % (coq_str(p), dflt(d)) for p, d in zip(params, defaults)),
+            "true" if kwname else "false", ";\n   ".join(acts)))
+    lines.append("Definition facade_methods : list fmethod := [%s].\n" % "; ".join("F_" + m["name"] for m in methods))
+    lines.append("Definition doc_kwargs : list (string * list string) := [%s].\n" % "; ".join(
+        "(%s, [%s])" % (coq_str(m["name"]), "; ".join(coq_str(k) for k in m["doc_kwargs"])) for m in methods))
+    # ---- attach: __init_opcode decision table  `devicetype in (codes): self.device.opcodes = <set>`
+    table, attach_ok = [], False
+    init = next((f for f in (cls.body if cls else []) if isinstance(f, ast.FunctionDef) and f.name.endswith("__init_opcode")), None)
+    if init is not None:
+        outer = [st for st in init.body if not (isinstance(st, ast.Expr) and isinstance(st.value, ast.Constant))]
+        if len(outer) == 1 and isinstance(outer[0], ast.If) and not outer[0].orelse:
+            inner = outer[0].body
+            # self.device.devicetype = self.inquiry().result["peripheral_device_type"]
+            a0 = inner[0] if inner else None
+            shape0 = (isinstance(a0, ast.Assign) and dotted(a0.targets[0]) == "self.device.devicetype"
+                      and isinstance(a0.value, ast.Subscript) and isinstance(a0.value.slice, ast.Constant)
+                      and a0.value.slice.value == "peripheral_device_type" and isinstance(a0.value.value, ast.Attribute)
+                      and a0.value.value.attr == "result" and isinstance(a0.value.value.value, ast.Call)
+                      and dotted(a0.value.value.value.func) == "self.inquiry" and not a0.value.value.value.args
+                      and not a0.value.value.value.keywords)
+            if shape0 and len(inner) == 2 and isinstance(inner[1], ast.If):
+                node, good = inner[1], True
+                while True:
+                    t = node.test
+                    codes = None
+                    if isinstance(t, ast.Compare) and len(t.ops) == 1 and isinstance(t.ops[0], ast.In) \
+                            and dotted(t.left) == "self.device.devicetype" and isinstance(t.comparators[0], (ast.Tuple, ast.List)):
+                        codes = [const_int(e) for e in t.comparators[0].elts]
+                    tgt = None
+                    if len(node.body) == 1 and isinstance(node.body[0], ast.Assign) and dotted(node.body[0].targets[0]) == "self.device.opcodes" \
+                            and isinstance(node.body[0].value, ast.Name):
+                        tgt = node.body[0].value.id
+                    if codes is None or None in codes or tgt is None:
+                        good = False
+                        break
+                    table.append("([%s], %s)" % ("; ".join(str(c) for c in codes), coq_str(tgt)))
+                    if len(node.orelse) == 1 and isinstance(node.orelse[0], ast.If):
+                        node = node.orelse[0]
+                        continue
+                    if node.orelse:
+                        good = False
+                    break
+                attach_ok = good
+    if not attach_ok:
+        unknown.append("SCSI.__init_opcode: unrecognised shape")
+        table = []
+    lines.append("Definition attach_table : list (list N * string) := [%s].\n" % "; ".join(table))
+    lines.append("Definition unknown_facade : list string := [" + "; ".join(coq_str(u) for u in unknown) + "].\n")
+    return "\n".join(lines), dict(methods=methods, attach_table=table, unknown=unknown)
 
 
 def gen_misc(mods):
